@@ -1,0 +1,43 @@
+//go:build verif
+
+package badger
+
+import "time"
+
+// VerifReadAcrossFlush runs reader so that it overlaps a memtable flush (harness engine "mvcc",
+// ops xiter / xget): the current memtable is made immutable without handing it to the flusher
+// goroutine, db.lock is taken (the lock a reader needs to pick the memtables), reader is started and
+// given wait to reach that lock, then the flusher's two steps are carried out exactly as
+// DB.flushMemtable does (handleMemTableFlush, then the memtable leaves db.imm), the lock is released
+// and the reader awaited. Only production code is called. Returns false when there is nothing to
+// flush or an immutable memtable is already queued (the reader is then run without a flush).
+func VerifReadAcrossFlush(db *DB, wait time.Duration, reader func()) (bool, error) {
+	db.lock.Lock()
+	if len(db.imm) > 0 || db.mt == nil || db.mt.sl.Empty() {
+		db.lock.Unlock()
+		reader()
+		return false, nil
+	}
+	mt, err := db.newMemTable()
+	if err != nil {
+		db.lock.Unlock()
+		return false, err
+	}
+	db.imm = append(db.imm, db.mt)
+	db.mt = mt
+	done := make(chan struct{})
+	go func() {
+		defer close(done)
+		reader()
+	}()
+	time.Sleep(wait)
+	old := db.imm[0]
+	err = db.handleMemTableFlush(old, nil)
+	if err == nil {
+		db.imm = db.imm[1:]
+		old.DecrRef()
+	}
+	db.lock.Unlock()
+	<-done
+	return true, err
+}
